@@ -82,6 +82,9 @@ def probe(cs, universe):
                 if m < 0 or (hi >= BIG and m == hi - 1):    # sys.maxsize - 1 has no embedding
                     continue
                 d["mem"].append([m, code(lambda m=m: dec(m) in o)])
+                if m < BIG:          # the same step as a numpy integer (seed R8-C17-b: an isinstance(step, int) guard)
+                    d["mem"].append([m, code(lambda m=m: numpy.int64(m) in o)])
+                    d["mem"].append([m, code(lambda m=m: numpy.int32(m) in o)])
         acts.append(d)
     eq = [[code(lambda a=a, b=b: a == b) for b in objs] for a in objs]
     ne = [[code(lambda a=a, b=b: a != b) for b in objs] for a in objs]
